@@ -37,6 +37,10 @@ def gen_cases(seed, tier):
     for i in range(n):
         dom = gen_geo.gen_domain(rng, max_depth=int(rng.integers(0, depth + 1)),
                                  allow=("bool", "prim", "prim", "translate", "rotate", "rotate", "product"))
+        if i % 6 == 1 and "product" not in geo.spec_ops(dom["spec"]):
+            S = float(sampling.SCALES[(i // 6) % len(sampling.SCALES)])      # the same expression at another length scale
+            dom["spec"] = geo.scale_spec(dom["spec"], S)
+            dom["info"] = dict(dom["info"], scale=S)
         cases.append({"spec": dom["spec"], "rows": dom["rows"], "info": dom["info"], "k": dom["k"],
                       "seed": int(rng.integers(0, 2 ** 31))})
     return cases
